@@ -385,6 +385,10 @@ def body(run):
     for o in ("produced", "implicit-rounds", "config-only", "hex-uppercase", "hex-lowercase", "padding-bits-set", "bare-salt"):
         run.require(f"origin:{o}", 3)
     run.require("libpass_inspect", 50)
+    if run.tier == "thorough":
+        # the repository's own test-suite as one more workload, monitors on (vlib/ambient_plugin.py)
+        from vlib.ambient import suite_under_monitor
+        suite_under_monitor(run, min_events={"C07-rerender": 5000})
     run.assumptions += ["documented canonical forms: hex case (lower for " + ", ".join(LOWER_HEX[:6]) + " ...; upper for " + ", ".join(UPPER_HEX) + "), bcrypt padding-bit repair",
                         "parsehash() may omit a setting only when it equals the hasher's default (as its documentation says)"]
 
